@@ -90,6 +90,26 @@ def gen_case(rng, pkgbase):
             # components that import each other: the one imported first decides the reading order
             packages[deps[0]]["imports"] = list(packages[deps[0]]["imports"]) + [pname]
         known += [t["name"] for t in ptypes]
+    if packages and rng.random() < 0.3:
+        # the application schema itself imports one of the packages (then '%import' of it changes
+        # nothing, and a later '%import' of another package is the first that extends the load)
+        own = {}
+        for pn, pa in packages.items():
+            names = set(t["name"].lower() for t in pa["types"])
+            if not pa.get("imports") and all((not t.get("extends")) or t["extends"].lower() in names for t in pa["types"]):
+                own[pn] = pa
+        if own:
+            ast["imports"] = [rng.choice(sorted(own))]
+            ast["imports_after_abstract"] = True
+    elif packages and rng.random() < 0.3:
+        # the application schema picks ONE extra component file of a package ('file=' attribute);
+        # the package's default component still arrives only by '%import'
+        pn = rng.choice(sorted(packages))
+        ast["_extra_import"] = {"package": pn, "file": "extra.xml",
+                                "type": {"name": "px1", "keytype": None, "datatype": None, "extends": None,
+                                         "implements": gen.mixcase(rng, rng.choice(abstract)),
+                                         "items": [{"kind": "key", "name": "v", "attribute": None, "required": False,
+                                                    "handler": None, "datatype": "string", "default": "d"}]}}
     return ast, packages
 
 
@@ -209,8 +229,22 @@ def compare_sequence(ast, packages, texts):
     """-> list of (ref, [(sig, detail)]) per text; one schema object serves all loads."""
     ZConfig = loadcheck.zc()
     comp = compose.Composed()
-    comp.main_xml = gen.render_schema(ast)
     comp.packages = {p: {"component.xml": gen.render_schema(a, root="component")} for p, a in packages.items()}
+    extra = ast.get("_extra_import")
+    if extra and extra["package"] in packages:
+        import copy
+        xml_ast = copy.deepcopy(ast)
+        xml_ast["imports"] = [(extra["package"], extra["file"])]
+        xml_ast["imports_after_abstract"] = True
+        comp.main_xml = gen.render_schema(xml_ast)
+        comp.packages[extra["package"]][extra["file"]] = gen.render_schema(
+            {"abstract": [], "types": [extra["type"]], "imports": []}, root="component")
+        # for the reference the extra type simply belongs to the schema
+        ast = copy.deepcopy(ast)
+        ast["types"] = [extra["type"]] + ast["types"]
+        ast["abstract_first"] = True
+    else:
+        comp.main_xml = gen.render_schema(ast)
     _LINK["n"] += 1
     comp.link_packages = _LINK["n"] % 3 == 0       # package directories that are symbolic links
     results = []
